@@ -1,11 +1,126 @@
 /-
-  Protocol ops of one area (see /verif/FRAMEWORK.md).  Not part of any theorem.  Core Lean only.
+  Protocol ops of the ORIGIN area (C16; see /verif/FRAMEWORK.md).  Not part of any theorem.
+  Core Lean only.
+
+    origin.tolen n            → int                       toOriginLength
+    origin.fromlen n          → int                       fromOriginLength
+    origin.format x<p>        → x<block> | PANIC          NewOrigin(p).Buffer
+    origin.string x<p>        → x<block> | PANIC          Origin{p, Parsed: true}.String()
+    origin.bytes x<buf>       → x<residues> | NIL | PANIC (&Origin{buf, false}).Bytes()
+    origin.len x<buf>         → int                       Origin{buf, false}.Len()
+    origin.validate x<buf> n  → OK | ERR | PANIC          validateOrigin(buf, n)
+    origin.slow x<input> n    → x<token> x<rest> | ERR | PANIC   slowGenBankOriginParser(n) on a fresh state
+    origin.parse x<input> n   → x<buffer> x<rest> | ERR | PANIC  makeGenbankOriginParser(n)(gb, 12) on a fresh state
+    origin.line x<input>      → x<token> x<rest>          pars.Line on a fresh state
+
+  Generated-input ops (no hex traffic; both sides build the same residues `gen n k s` from an
+  alphabet number `k` and a seed `s`, and answer with a digest `<length>:<fnv1a-64>`); `block` is
+  each side's own NewOrigin(gen n k s):
+    origin.g.format n k s     → digest(block) | PANIC
+    origin.g.bytes n k s      → digest(Bytes(block)) | NIL | PANIC
+    origin.g.len n k s        → int
+    origin.g.validate n k s   → OK | ERR | PANIC
+    origin.g.slow n k s c     → digest(token) digest(rest) | ERR | PANIC    input = eol_c(block) ++ "//" ++ eol
+    origin.g.parse n k s c    → digest(buffer) digest(rest) | ERR | PANIC   input = "ORIGIN      " ++ eol ++ eol_c(block) ++ "//" ++ eol
+  (c = 0: LF line ends, c = 1: CRLF line ends)
 -/
 import Gts.Model.Sexp
+import Gts.Model.Origin
 namespace Gts
+open Gts.Origin
+
+def encOutBytes : Out (List UInt8) → String
+  | .ok b => encBytes b
+  | .error .fail => "ERR"
+  | .error .panic => "PANIC"
+
+def encOutPair : Out (List UInt8 × List UInt8) → String
+  | .ok (a, b) => encBytes a ++ " " ++ encBytes b
+  | .error .fail => "ERR"
+  | .error .panic => "PANIC"
+
+/-! generated inputs and digests (mirrored in harness/props_c16.go) -/
+
+def genAlphabets : Array (Array UInt8) := #[
+  "acgt".toUTF8.data, "ACGTN".toUTF8.data, "acgtrymkswhbvdn".toUTF8.data,
+  "ACDEFGHIKLMNPQRSTVWY*".toUTF8.data, (Array.range 94).map (fun i => UInt8.ofNat (33 + i)),
+  "0123456789-.*".toUTF8.data]
+
+def genResidues (n k s : Nat) : List UInt8 :=
+  let a := genAlphabets[k % genAlphabets.size]!
+  (List.range n).map fun i => a[(i * i + 7 * i + s) % a.size]!
+
+def fnv64 (b : List UInt8) : UInt64 :=
+  b.foldl (fun h c => (h ^^^ c.toUInt64) * 1099511628211) 14695981039346656037
+
+def digest (b : List UInt8) : String := s!"{b.length}:{fnv64 b}"
+
+def toCRLF (b : List UInt8) : List UInt8 := b.flatMap fun c => if c == 10 then [13, 10] else [c]
+
+def eolOf (c : Nat) : List UInt8 := if c == 1 then [13, 10] else [10]
+def convOf (c : Nat) (b : List UInt8) : List UInt8 := if c == 1 then toCRLF b else b
+
+def encOutDigest : Out (List UInt8) → String
+  | .ok b => digest b
+  | .error .fail => "ERR"
+  | .error .panic => "PANIC"
+
+def encOutDigestPair : Out (List UInt8 × List UInt8) → String
+  | .ok (a, b) => digest a ++ " " ++ digest b
+  | .error .fail => "ERR"
+  | .error .panic => "PANIC"
+
+def decNat? (x : Sexp) : Option Nat := do
+  let i ← decInt? x
+  if i < 0 then none else pure i.toNat
+
+/-- `f` applied to this side's own `NewOrigin(gen n k s)` -/
+def withBlock (n k s : Sexp) (f : Nat → List UInt8 → String) : Option String := do
+  let n ← decNat? n
+  match newOrigin (genResidues n (← decNat? k) (← decNat? s)) with
+  | .ok b => pure (f n b)
+  | .error _ => pure "PANIC"
 
 def evalOrigin (op : String) (args : List Sexp) : Option String :=
   match op, args with
+  | "origin.tolen", [n] => do pure (toString (toOriginLength (← decInt? n)))
+  | "origin.fromlen", [n] => do pure (toString (fromOriginLength (← decInt? n)))
+  | "origin.format", [p] => do pure (encOutBytes (newOrigin (← decBytes? p)))
+  | "origin.string", [p] => do pure (encOutBytes (originString (← decBytes? p) true))
+  | "origin.bytes", [p] => do
+      match originBytes (← decBytes? p) with
+      | .ok [] => pure "NIL"
+      | r => pure (encOutBytes r)
+  | "origin.len", [p] => do pure (toString (originLen (← decBytes? p)))
+  | "origin.validate", [p, n] => do
+      match validateOrigin (← decBytes? p) (← decInt? n) with
+      | .ok () => pure "OK"
+      | .error .fail => pure "ERR"
+      | .error .panic => pure "PANIC"
+  | "origin.slow", [p, n] => do pure (encOutPair (slowOrigin (← decBytes? p) (← decInt? n)))
+  | "origin.parse", [p, n] => do pure (encOutPair (originParse (← decBytes? p) (← decInt? n)))
+  | "origin.line", [p] => do
+      let r := splitLine (← decBytes? p)
+      pure (encBytes r.1 ++ " " ++ encBytes r.2)
+  | "origin.g.format", [n, k, s] => withBlock n k s fun _ b => digest b
+  | "origin.g.bytes", [n, k, s] => withBlock n k s fun _ b =>
+      match originBytes b with
+      | .ok [] => "NIL"
+      | r => encOutDigest r
+  | "origin.g.len", [n, k, s] => withBlock n k s fun _ b => toString (originLen b)
+  | "origin.g.validate", [n, k, s] => withBlock n k s fun n b =>
+      match validateOrigin b n with
+      | .ok () => "OK"
+      | .error .fail => "ERR"
+      | .error .panic => "PANIC"
+  | "origin.g.slow", [n, k, s, c] => do
+      let c ← decNat? c
+      withBlock n k s fun n b =>
+        encOutDigestPair (slowOrigin (convOf c b ++ [47, 47] ++ eolOf c) n)
+  | "origin.g.parse", [n, k, s, c] => do
+      let c ← decNat? c
+      withBlock n k s fun n b =>
+        encOutDigestPair (originParse (Pars.str "ORIGIN      " ++ eolOf c ++ convOf c b ++ [47, 47] ++ eolOf c) n)
   | _, _ => none
 
 end Gts
